@@ -3,7 +3,7 @@ from __future__ import annotations
 
 from .. import primcheck as PC
 from ..core import Report
-from .common import TRUSTED_WIRE, cfg_class, require_no_errors, wire_results
+from .common import require_fresh_lookups, TRUSTED_WIRE, cfg_class, require_no_errors, wire_results
 
 META = {
     "level": "proof",
@@ -78,6 +78,8 @@ def run(rep: Report) -> None:
             rep.holds("W-step", cfg.label(), "Network.step")
     rep.analysed["configurations"] = len(cks)
     rep.analysed["symbolic_paths"] = npaths
+    require_fresh_lookups(rep)
+
     rep.analysed["primitive_runs"] = len(runs)
 
 
